@@ -46,3 +46,15 @@ func VerifSeencheck(client *gocrawlhq.Client, seed *models.Item) error {
 	}
 	return SeencheckItem(seed)
 }
+
+// VerifSetClient makes the package talk to the given crawl HQ (no routines are started).
+func VerifSetClient(client *gocrawlhq.Client) {
+	log.Start()
+	logger = log.NewFieldedLogger(&log.Fields{"component": "hq"})
+	if globalHQ == nil {
+		ctx, cancel := context.WithCancel(context.Background())
+		globalHQ = &hq{ctx: ctx, cancel: cancel, client: client}
+	} else {
+		globalHQ.client = client
+	}
+}
